@@ -3,7 +3,7 @@
 //! Families: (1) derivations of the grammar file itself, every rule in focus, <= k deviations inside it;
 //! (2) every single token edit at every token of every example program; (3) nesting 1..64 of every
 //! recursive construct; (4) mutually referring blocks (analysis cost). Each string is one isolated case:
-//! a panic, abort (stack overflow, allocation failure under the 4 GiB cap) or hang (> 10 s) is a violation.
+//! a panic, abort (stack overflow, allocation failure under the 4 GiB cap) or hang (> 10 s of CPU time, or 300 s of wall-clock time) is a violation.
 
 use crate::engine::dbx::{self, Chooser};
 use crate::engine::{hash64, panics, Outcome, Prop, Sink, Tier, Violation};
@@ -379,7 +379,7 @@ impl Prop for C12 {
     fn assumptions(&self) -> Vec<String> {
         vec![
             "strings outside the enumerated families are not covered (bounded nesting depth 64, <= k deviations per focus rule)".into(),
-            "a case exceeding 10 s wall clock or 4 GiB of address space counts as failing to terminate".into(),
+            "a case exceeding 10 s of CPU time (300 s of wall-clock time) or 4 GiB of address space counts as failing to terminate".into(),
         ]
     }
     fn bound(&self, tier: Tier) -> String {
